@@ -90,7 +90,13 @@ def render_item(it, gapdir=None):
     if k == 'li':
         v = (b << 16) | c
         # the same 32-bit pattern in its unsigned, negative, decimal and binary spellings
-        k = (b ^ c ^ a) % 4
+        k = (b ^ c ^ a) % 6
+        if k == 4 and v:
+            # the same value as an expression of several tokens whose first token is a small literal
+            sh = (v & -v).bit_length() - 1
+            return 'li %s, %d << %d' % (reg(a), v >> sh, sh) if sh and (v >> sh) < 2048 else 'li %s, 1 + %d' % (reg(a), v - 1)
+        if k == 5:
+            return 'li %s, 0 | %s' % (reg(a), hex(v))
         if k == 1 and v >= 2**31:
             return 'li %s, %s' % (reg(a), v - 2**32)
         if k == 2 and v >= 2**31:
